@@ -2069,7 +2069,8 @@ template< size_t L>
 
    if (index < mLength)
    {
-      if (mLength + count <= L)
+      // count can be max(64bit), so we cannot calc mLength + count
+      if (count <= L - mLength)
       {
          // aaaccccc\0, insert( 3, 4, 'b')
          // length = 8, L > 11
@@ -2078,12 +2079,13 @@ template< size_t L>
          // --> aaabbbbccccc\0
          std::memset( &mString[ index], ch, count);
          mLength += count;
-      } else if (index + count <= L)
+      } else if (count <= L - index)
       {
          // aaaccccc\0, insert( 3, 4, 'b')
          // length = 8, L = 10
          // --> aaa____ccc\0
-         std::memmove( &mString[ index + count], &mString[ index], L - index - 1);
+         std::memmove( &mString[ index + count], &mString[ index],
+            L - index - count);
          // --> aaabbbbccc\0
          std::memset( &mString[ index], ch, count);
          mLength = L;
@@ -2098,7 +2100,7 @@ template< size_t L>
    } else
    {
       // append at the end
-      if (mLength + count > L)
+      if (count > L - mLength)
          count = L - mLength;
 
       std::memset( &mString[ mLength], ch, count);
